@@ -484,7 +484,7 @@ class TimeDeltaUnmarshaller(AbstractUnmarshaller[TimeDeltaT], tp.Generic[TimeDel
             val: The input value to unmarshal.
         """
         if isinstance(val, (int, float)):
-            return self.t(seconds=int(val))
+            return self.t(seconds=val)
 
         decoded = serdes.decode(val)
         td: datetime.timedelta = (
@@ -496,7 +496,13 @@ class TimeDeltaUnmarshaller(AbstractUnmarshaller[TimeDeltaT], tp.Generic[TimeDel
         if td.__class__ is self.t:
             return td  # type: ignore[return-value]
 
-        return self.t(seconds=td.total_seconds())
+        # Reconstruct from the exact fields - `total_seconds()` is a lossy float.
+        delta = datetime.timedelta
+        return self.t(
+            days=delta.days.__get__(td),
+            seconds=delta.seconds.__get__(td),
+            microseconds=delta.microseconds.__get__(td),
+        )
 
 
 UUIDT = tp.TypeVar("UUIDT", bound=uuid.UUID)
